@@ -195,10 +195,23 @@ def slices(ctx, cone):
             x = t[1]
             while x[0] in ("deref", "w"):
                 x = x[1]
+            for _ in range(4):
+                if x[0] == "ref" and x[1][0][0] == "D" and not x[1][1]:
+                    x = x[1][0][1]
+                elif x[0] == "ret" and x[1].rsplit("::", 1)[-1] in ("deref", "as_slice", "as_ref", "borrow", "deref_mut") and len(x[2]) == 1:
+                    x = x[2][0]  # a view of the same bytes has the same length
+                else:
+                    break
+                while x[0] in ("deref", "w"):
+                    x = x[1]
             if x[0] == "ret" and x[1].endswith("from_elem") and len(x[2]) == 2:
                 return norm(x[2][1])
             if x[0] == "membytes":
                 return norm(x[2])
+            if x[0] == "agg" and x[1] == "array":
+                return A.INT(len(x[3]), 64)
+            if x[0] == "arrview":
+                return A.INT(x[3] - x[2], 64)
             if x[0] == "ret" and "ops::Index" in x[1] and len(x[2]) == 2:
                 b_ = SQ.range_bounds(x[2][1])
                 if b_ is not None:
